@@ -195,14 +195,18 @@ func runC14(c any, x *kit.Ctx) {
 				if prefix > 0 {
 					continue // DataReader() always starts at the archive
 				}
+				// carv2.NewReader / DataReader only build this kind of source; they are not what C14 is about: when
+				// they refuse the archive (a policy of their own) the source kind is skipped and the fact recorded
 				rd, err := carv2.NewReader(bytes.NewReader(arch))
 				if err != nil {
-					panic(err)
+					x.Outcome("beyond-statement:datareader-source-unavailable")
+					continue
 				}
 				if cs.Cont == "v1" {
 					dr, err := rd.DataReader()
 					if err != nil {
-						panic(err)
+						x.Outcome("beyond-statement:datareader-source-unavailable")
+						continue
 					}
 					src = dr
 				} else {
@@ -239,7 +243,13 @@ func runC14(c any, x *kit.Ctx) {
 			br, err := carv2.NewBlockReader(src, bropts...)
 			x.Eval(1)
 			if err != nil {
-				x.Fail("c14:open:"+tag, "NewBlockReader fails on a valid archive: %v", err)
+				if len(cs.Hdr) > 0 && c14HdrOversize(rootRaws) {
+					// a resource limit on header/root-CID size is a policy the statement does not speak about (like the
+					// 32 MiB header limit the sweep stays under): a refusal at open is recorded, never a violation
+					x.Outcome("beyond-statement:open-refuses-oversize-header")
+				} else {
+					x.Fail("c14:open:"+tag, "NewBlockReader fails on a valid archive: %v", err)
+				}
 				if closer != nil {
 					closer.Close()
 				}
